@@ -18,7 +18,11 @@ RULE = ("Model-based histories on real stacks (virtual LAN + clock): two client 
         "the payload of a reply that really came from that peer address with that ID while the request was live; nothing is "
         "delivered for completed or unknown transactions; at quiescence every request had exactly one confirmation; a serving "
         "application sees each (client, invoke ID) request exactly once however often it is retransmitted while pending; equal "
-        "IDs from two clients are both served, each answer to its owner. Non-trivial: >= 2 simultaneously live requests to one "
+        "IDs from two clients are both served, each answer to its owner. Aborts and segment-acks carrying the CLIENT role flag (the peer "
+        "talking about a request of its own) with a live invoke ID must leave our request alone. IOCB histories: requests submitted "
+        "through I/O control blocks, whose completion callbacks submit further requests to the same or another peer while others "
+        "are queued or in flight; when the servers have answered everything, every IOCB completed exactly once with the answer "
+        "to its own request, no request was served twice and no queue is left. Non-trivial: >= 2 simultaneously live requests to one "
         "peer, or an injected foreign/late/duplicate reply. Distinct by the operation list.")
 ASSUMPTIONS = [
     "client APDU timeout (1 s) is shorter than the servers' application timeout (1000 s) so that 'while the original is still being processed' is observable",
@@ -250,6 +254,11 @@ def run_history(ops, nservers):
                 frame = raw_frame(dict(type=RA.SEGACK, nak=False, srv=True, invoke=inv, seq=0, win=2))
             elif kind == "abort":
                 frame = raw_frame(dict(type=RA.ABORT, srv=True, invoke=inv, reason=9))
+            elif kind == "abort-by-client":
+                # the peer aborts a request IT made to us (server flag clear): nothing to do with our own request of that number
+                frame = raw_frame(dict(type=RA.ABORT, srv=False, invoke=inv, reason=9))
+            elif kind == "segack-by-client":
+                frame = raw_frame(dict(type=RA.SEGACK, nak=False, srv=False, invoke=inv, seq=0, win=2))
             else:
                 frame = raw_frame(dict(type=RA.REJECT, invoke=inv, reason=4))
             stats["injected"] += 1
@@ -312,6 +321,9 @@ def _note_injection(live, client, src, frame, stats):
     ent = live.get((client, src, a.get("invoke")))
     if ent is None:
         return
+    if a["type"] in (RA.ABORT, RA.SEGACK) and not a.get("srv"):
+        stats["client_flagged"] = stats.get("client_flagged", 0) + 1
+        return          # sent in the peer's role as a client: not a reply to anything we asked
     stats["matched_injections"] += 1
     if a["type"] == RA.CACK:
         try:
@@ -322,14 +334,150 @@ def _note_injection(live, client, src, frame, stats):
     ent["eligible_kinds"].add({RA.SACK: "simpleack", RA.ERROR: "error", RA.REJECT: "reject", RA.ABORT: "abort"}.get(a["type"], "x"))
 
 
+
+# ---- requests through I/O control blocks, chained from completion callbacks ------------------------------------------------------
+
+_ioapp = None
+
+
+def io_client():
+    global _ioapp
+    if _ioapp is None:
+        L = lablib()
+
+        class ClientIO(L.app.ApplicationIOController):
+            _startup_disabled = True
+
+            def __init__(self, device):
+                L.app.ApplicationIOController.__init__(self, device)
+        _ioapp = ClientIO
+    return _ioapp
+
+
+def run_io_history(ops, nservers):
+    """ops: ["io", peer, chain] submit an IOCB whose completion callback submits `chain` more requests to the same peer, one after the other;
+    ["io2", peer, other] its callback submits one request to ANOTHER peer; ["ans", server, k]; ["adv", dt]"""
+    L = lablib()
+    from bacpypes.iocb import IOCB
+    Client, Server = apps()
+    lab = StackLab()
+    boot.swallowed.take()
+    cl = lab.add_stack(1, io_client(), retries=3, apdu_timeout=1000000, seg_timeout=500, app_timeout=3000)
+    servers = {}
+    for mac in SERVERS[:nservers]:
+        servers[mac] = lab.add_stack(mac, Server, retries=3, apdu_timeout=1000, seg_timeout=500, app_timeout=10000000)
+    recs = []            # dict(token, peer, done=[(state, payload)])
+    stats = dict(max_live_per_peer=0, injected=0, matched_injections=0, refused_collisions=0, chained=0, iocbs=0)
+    fails = []
+
+    def payload_of(anyv):
+        try:
+            return bytes(anyv.cast_out(L.OctetString))
+        except Exception:
+            return b"?undecodable"
+
+    def submit(peer, chain, other=None):
+        token = b"I%05d" % len(recs)
+        rec = dict(token=token, peer=peer, done=[])
+        recs.append(rec)
+        stats["iocbs"] += 1
+        req = L.apdu.ConfirmedPrivateTransferRequest(vendorID=999, serviceNumber=1)
+        req.serviceParameters = L.Any(L.OctetString(token))
+        req.pduDestination = L.Address(peer)
+        iocb = IOCB(req)
+
+        def cb(io):
+            if io.ioResponse is not None:
+                r = io.ioResponse
+                rec["done"].append(("ack" if isinstance(r, L.apdu.ConfirmedPrivateTransferACK) else type(r).__name__,
+                                    payload_of(r.resultBlock) if isinstance(r, L.apdu.ConfirmedPrivateTransferACK) else None, getattr(r, "apduInvokeID", None)))
+            else:
+                rec["done"].append(("error", repr(io.ioError), None))
+            if other is not None:
+                stats["chained"] += 1
+                submit(other, 0)
+            elif chain > 0:
+                stats["chained"] += 1
+                submit(peer, chain - 1)
+        iocb.add_callback(cb)
+        cl.app.request_io(iocb)
+
+    for op in ops:
+        k = op[0]
+        try:
+            if k == "io":
+                submit(SERVERS[op[1] % nservers], op[2])
+            elif k == "io2":
+                submit(SERVERS[op[1] % nservers], 0, other=SERVERS[op[2] % nservers])
+            elif k == "ans":
+                app = servers[SERVERS[op[1] % nservers]].app
+                if app.pending:
+                    app.answer(op[2] % len(app.pending))
+            elif k == "adv":
+                lab.run(lab.now + op[1])
+                VC.clk.now = max(VC.clk.now, lab.now)
+        except Exception as err:
+            fails.append(("io:step-raised:%s" % type(err).__name__, "step %r raised %r" % (op, err)))
+            break
+        lab.settle()
+        live = {}
+        for r in recs:
+            if not r["done"]:
+                live[r["peer"]] = live.get(r["peer"], 0) + 1
+        stats["max_live_per_peer"] = max([stats["max_live_per_peer"]] + list(live.values()))
+    # drain: let the servers answer everything, as often as chained requests keep coming
+    for _ in range(len(recs) * 2 + 60):
+        any_ = False
+        for mac in sorted(servers):
+            app = servers[mac].app
+            while app.pending:
+                app.answer(0)
+                any_ = True
+                lab.settle()
+        lab.run(lab.now + 0.5)
+        if not any_ and all(r["done"] for r in recs):
+            break
+    sw = [r for r in boot.swallowed.take() if r[0]]
+    exc = ":%s@%s" % (sw[0][0], sw[0][1]) if sw else ""
+    for r in recs:
+        if len(r["done"]) == 0:
+            fails.append(("io:never-completed%s" % exc, "the IOCB for request %r to peer %d never completed although every server answered everything it received; all: %r"
+                          % (r["token"], r["peer"], [(x["token"], x["peer"], x["done"]) for x in recs][:8])))
+            break
+        if len(r["done"]) > 1:
+            fails.append(("io:completed-twice%s" % exc, "the IOCB for request %r completed %d times: %r" % (r["token"], len(r["done"]), r["done"])))
+            break
+        kind, payload, inv = r["done"][0]
+        if kind != "ack" or payload != b"R" + r["token"]:
+            fails.append(("io:crossed-reply%s" % exc, "the IOCB for request %r to peer %d was completed with %s %r (invoke ID %r), not with the answer to it" % (r["token"], r["peer"], kind, payload, inv)))
+            break
+    for mac in sorted(servers):
+        seen = [t for (_, _, t) in servers[mac].app.seen]
+        if len(seen) != len(set(seen)):
+            fails.append(("io:request-served-twice", "server %d saw %r" % (mac, seen)))
+            break
+    if cl.app.queue_by_address and not fails:
+        fails.append(("io:queue-left-behind", "queue_by_address still has %r after everything completed" % (sorted(str(k) for k in cl.app.queue_by_address),)))
+    return fails[:2], stats
+
+
 def judge(case):
     try:
         with watchdog(120):
-            fails, stats = run_history(case["ops"], case.get("nservers", 2))
+            if case.get("k") == "io":
+                fails, stats = run_io_history(case["ops"], case.get("nservers", 2))
+            else:
+                fails, stats = run_history(case["ops"], case.get("nservers", 2))
     except Stall:
         return Verdict([("stall", "the lab did not come back within 120 s of real time")], True, ("stall",))
-    nt = stats["max_live_per_peer"] >= 2 or stats["injected"] > 0
+    nt = stats["max_live_per_peer"] >= 2 or stats["injected"] > 0 or stats.get("chained", 0) > 0
     labels = ["live>=2" if stats["max_live_per_peer"] >= 2 else "live<2"]
+    if case.get("k") == "io":
+        labels.append("iocb")
+        if stats.get("chained"):
+            labels.append("iocb:chained-from-callback")
+    if stats.get("client_flagged"):
+        labels.append("client-flagged-abort-or-segack-on-live-id")
     if stats["matched_injections"]:
         labels.append("injection-matched-live-id")
     if stats["refused_collisions"]:
@@ -347,6 +495,8 @@ def plan(tier, seed):
         specs.append(dict(name="histories-%d" % i, kind="hist", n=600 if tier == "quick" else 6000))
     for i in range(8):
         specs.append(dict(name="bursts-%d" % i, kind="burst", n=200 if tier == "quick" else 3000))
+    for i in range(4):
+        specs.append(dict(name="iocb-%d" % i, kind="io", n=500 if tier == "quick" else 5000))
     specs.append(dict(name="wrap", kind="wrap", tier=tier))
     specs.append(dict(name="twins", kind="twins"))
     return specs
@@ -357,7 +507,7 @@ def op_strategy():
     req = st.tuples(st.just("req"), st.integers(0, 1), st.integers(0, 3), st.one_of(st.none(), st.none(), st.integers(0, 6), st.integers(0, 255))).map(list)
     ans = st.tuples(st.just("ans"), st.integers(0, 3), st.integers(0, 7)).map(list)
     dup = st.tuples(st.just("dup"), st.integers(0, 30)).map(list)
-    forge = st.tuples(st.just("forge"), st.sampled_from(["ack", "ack", "simpleack", "error", "segack", "abort", "reject"]), st.integers(0, 3),
+    forge = st.tuples(st.just("forge"), st.sampled_from(["ack", "ack", "simpleack", "error", "segack", "abort", "reject", "abort-by-client", "abort-by-client", "segack-by-client"]), st.integers(0, 3),
                       st.integers(0, 255), st.integers(0, 1), st.integers(0, 2)).map(list)
     adv = st.tuples(st.just("adv"), st.sampled_from([0.3, 0.9, 1.0, 1.1, 2.5, 4.5])).map(list)
     return st.one_of(req, req, req, ans, ans, dup, forge, forge, adv)
@@ -368,6 +518,14 @@ def run(spec, ctx):
     if kind == "hist":
         from hypothesis import strategies as st
         strat = st.tuples(st.lists(op_strategy(), min_size=1, max_size=60), st.integers(1, 4)).map(lambda t: dict(k="hist", ops=t[0], nservers=t[1]))
+        ctx.for_all(strat, spec["n"])
+    elif kind == "io":
+        from hypothesis import strategies as st
+        io_ = st.tuples(st.just("io"), st.integers(0, 3), st.sampled_from([0, 0, 1, 1, 2, 3])).map(list)
+        io2 = st.tuples(st.just("io2"), st.integers(0, 3), st.integers(0, 3)).map(list)
+        ans = st.tuples(st.just("ans"), st.integers(0, 3), st.integers(0, 7)).map(list)
+        adv = st.tuples(st.just("adv"), st.sampled_from([0.0, 0.3, 2.0])).map(list)
+        strat = st.tuples(st.lists(st.one_of(io_, io_, io2, ans, ans, ans, adv), min_size=2, max_size=40), st.integers(1, 3)).map(lambda t: dict(k="io", ops=t[0], nservers=t[1]))
         ctx.for_all(strat, spec["n"])
     elif kind == "burst":
         # many requests outstanding at once (up to 40), then answers in any order mixed with injections and time
